@@ -47,10 +47,10 @@ def byte_stages(with_bitmaps=True):
 MIRI_ALL = ["M-x86", "M-avx2", "M-a64", "M-i686", "M-s390x"]
 
 
-def miri_stage(kinds, quick=40, thorough=3000, targets=None):
+def miri_stage(kinds, quick=40, thorough=3000, targets=None, per_shard=20):
     """Generated cases interpreted by Miri for other targets (real NEON intrinsics on aarch64, 32-bit and big-endian SWAR)."""
     return {"name": "casefile", "kind": "casefile", "configs": cfgs(["N-auto"] + (targets or MIRI_ALL)), "kinds": kinds,
-            "count": {"quick": 0, "thorough": 0}, "miri_count": {"quick": quick, "thorough": thorough}, "miri_per_shard": 20}
+            "count": {"quick": 0, "thorough": 0}, "miri_count": {"quick": quick, "thorough": thorough}, "miri_per_shard": per_shard}
 
 
 def huge_stage(configs):
@@ -103,14 +103,14 @@ PLANS = {
                 "Non-trivial: the first match lies beyond the first vector of the implementation under test, or the haystack is non-empty "
                 "and shorter than one vector, or the match is on the 2nd/3rd needle. Distinct: enumerated cases are distinct by "
                 "construction; generated cases are deduplicated by a hash of (needles, haystack, placement).",
-        "stages": byte_stages() + [miri_stage("B", targets=["M-a64", "M-i686", "M-s390x"]), huge_stage(NATIVE)],
+        "stages": byte_stages() + [miri_stage("B", quick=240, thorough=6000, targets=["M-a64", "M-i686", "M-s390x"], per_shard=60), huge_stage(NATIVE)],
     },
     "C02": {
         "technique": 'property-based testing: bounded-exhaustive enumeration on the END alignment + proptest layouts against a naive oracle; emulated NEON/simd128, forced CPU levels, Miri sample, >4 GiB stage',
         "rule": "as C01 with the END alignment as the enumerated axis (the reverse scan aligns on the end pointer) and rfind/rfind_raw/"
                 "memrchr* judged against the naive last position. Non-trivial: the last match lies before the final vector of the scan, "
                 "or 0 < len < one vector, or the match is on the 2nd/3rd needle.",
-        "stages": byte_stages() + [miri_stage("B", targets=["M-a64", "M-i686", "M-s390x"]), huge_stage(NATIVE)],
+        "stages": byte_stages() + [miri_stage("B", quick=240, thorough=6000, targets=["M-a64", "M-i686", "M-s390x"], per_shard=60), huge_stage(NATIVE)],
     },
     "C03": {
         "technique": 'property-based testing: needle-derived structured generation (proptest, shrinking) + exhaustive small-alphabet (needle, haystack) pairs against a naive oracle',
@@ -133,7 +133,7 @@ PLANS = {
                 "memrchr*_iter, iter() of every One/Two/Three. Enumerated: every match bitmap of haystacks up to 10 (12) bytes; generated: lengths "
                 "0..=1 KiB (4 KiB), sparse / clustered-inside-one-vector / dense layouts. Non-trivial: >= 2 matches of which two are less than "
                 "one vector apart (the two ends meet inside one vector on some explored history). Distinct by hash of (needles, haystack).",
-        "stages": iter_stages() + [huge_stage(NATIVE)],
+        "stages": iter_stages() + [huge_stage(NATIVE), miri_stage("I", quick=120, thorough=4000, targets=["M-a64", "M-i686"], per_shard=60)],
     },
     "C07": {
         "technique": 'property-based testing: exhaustive enumeration + generated densities against a naive count; count() of clones at every node of the iterator call tree',
@@ -142,7 +142,7 @@ PLANS = {
                 "all-but-one; plus count() of a clone taken at EVERY node of the complete next/next_back call tree (partially consumed iterators) "
                 "against the model's remaining count. Non-trivial: >= 2 matches in different regions of the scan, or an iterator advanced from "
                 "at least one end.",
-        "stages": byte_stages() + iter_stages() + [huge_stage(NATIVE)],
+        "stages": byte_stages() + iter_stages() + [huge_stage(NATIVE), miri_stage("B", quick=120, thorough=4000, targets=["M-a64", "M-i686", "M-s390x"], per_shard=60)],
     },
     "C08": {
         "technique": 'model-based property testing: literal greedy non-overlapping model vs complete iterator runs, size_hint validity before every step',
